@@ -281,31 +281,27 @@ Theorem frozen_roundtrip_spec : forall f, thaw (frozen_roundtrip f) = thaw f /\
   fr_scalars (frozen_roundtrip f) = fr_scalars f.
 Proof. intros [[keys km] sc data]. split; reflexivity. Qed.
 
-Lemma md_index_combine : forall keys s i k, NoDup keys -> nth_error keys i = Some k ->
-  md_index (KStr k) (combine (map KStr keys) (seq s (List.length keys))) = Some (s + i)%nat.
+Lemma md_index_filter_str : forall z km,
+  md_index (KStr z) (filter (fun e => str_key (fst e)) km) = md_index (KStr z) km.
 Proof.
-  induction keys as [|a keys IH]; intros s i k Hn Hi; [destruct i; discriminate|].
-  inversion Hn as [|? ? Ha Hn']; subst. simpl. destruct i as [|i]; simpl in Hi.
-  - injection Hi as ->. rewrite Z.eqb_refl. f_equal. symmetry. apply Nat.add_0_r.
-  - destruct (Z.eqb_spec k a) as [->|Hne]; [exfalso; apply Ha; eapply nth_error_In; eauto|].
-    rewrite (IH (S s) i k Hn' Hi). f_equal. symmetry. apply Nat.add_succ_r.
+  intros z. induction km as [|[k' i] km IH]; simpl; auto.
+  destruct k' as [y|y|y]; simpl; rewrite IH; reflexivity.
+Qed.
+Lemma md_index_filter_str_obj : forall z km,
+  md_index (KObj z) (filter (fun e => str_key (fst e)) km) = None.
+Proof.
+  intros z. induction km as [|[k' i] km IH]; simpl; auto.
+  destruct k' as [y|y|y]; simpl; auto.
 Qed.
 
-(* the result keys themselves still resolve, to the same positions *)
-Theorem frozen_key_lookup_kept : forall f i k, NoDup (md_keys (fr_md f)) ->
-  nth_error (md_keys (fr_md f)) i = Some k -> frozen_index (frozen_roundtrip f) (KStr k) = Some i.
-Proof.
-  intros [[keys km] sc data] i k Hn Hi. unfold frozen_index, frozen_roundtrip, simple_md_roundtrip, rebuild. simpl in *.
-  now rewrite (md_index_combine keys 0 i k Hn Hi).
-Qed.
+(* every STRING key the frozen result answered - result keys and aliases such as Column.key or the
+   table-qualified label - resolves to the same position after the round trip; Column objects do not *)
+Theorem frozen_string_lookup_kept : forall f z,
+  frozen_index (frozen_roundtrip f) (KStr z) = frozen_index f (KStr z).
+Proof. intros [[keys km] sc data] z. unfold frozen_index. simpl. apply md_index_filter_str. Qed.
 
-(* ... but any other string key the frozen metadata answered (Column.key, "table_column" label) is lost *)
-Theorem frozen_alias_lookup_refuted : exists f k i,
-  frozen_index f (KStr k) = Some i /\ frozen_index (frozen_roundtrip f) (KStr k) = None.
-Proof.
-  exists (mkFrozen (mkMd [1; 2] [(KStr 1, 0%nat); (KStr 2, 1%nat); (KStr 3, 1%nat)]) false [[10; 20]]), 3, 1%nat.
-  split; reflexivity.
-Qed.
+Theorem frozen_object_lookup_lost : forall f z, frozen_index (frozen_roundtrip f) (KObj z) = None.
+Proof. intros [[keys km] sc data] z. unfold frozen_index. simpl. apply md_index_filter_str_obj. Qed.
 
 (* ================= serializer ================= *)
 Lemma str_eqb_refl : forall s, str_eqb s s = true.
@@ -315,8 +311,6 @@ Proof.
   induction a; destruct b; simpl; intros H; try discriminate; auto.
   apply andb_true_iff in H. destruct H as [H1 H2]. apply Z.eqb_eq in H1. subst. f_equal. auto.
 Qed.
-
-Definition no_colon (s : str) : bool := forallb (fun x => negb (x =? colon)) s.
 
 Lemma after_first_app : forall a b, no_colon a = true -> after_first colon (a ++ colon :: b) = Some b.
 Proof.
@@ -345,21 +339,12 @@ Proof.
   - apply andb_true_iff in Ha. destruct Ha as [Hx Ha]. apply negb_true_iff in Hx. rewrite Hx. now rewrite IH.
 Qed.
 
-Lemma clean_split : forall s, clean s = true -> no_colon s = true /\ no_newline s = true.
-Proof.
-  induction s as [|x s IH]; simpl; intros H; auto.
-  apply andb_true_iff in H. destruct H as [Hx Hs]. apply andb_true_iff in Hx. destruct Hx as [H1 H2].
-  destruct (IH Hs). rewrite H1, H2. auto.
-Qed.
-Lemma no_newline_app : forall a b, no_newline a = true -> no_newline b = true -> no_newline (a ++ b) = true.
-Proof. intros. unfold no_newline. rewrite forallb_app. now apply andb_true_iff. Qed.
-
 Section SerializerProofs.
   Variable b64 : Z -> str.
   Variable unb64 : str -> option Z.
   Variable tables : list (str * list str).
   Variable props : Z -> list str.
-  Hypothesis b64_clean : forall c, clean (b64 c) = true.       (* base64 alphabet *)
+  Hypothesis b64_clean : forall c, no_colon (b64 c) = true.    (* base64 alphabet *)
   Hypothesis unb64_b64 : forall c, unb64 (b64 c) = Some c.     (* pickle of the class, CPython's *)
 
   Notation load_id := (load_id unb64 tables props).
@@ -372,35 +357,28 @@ Section SerializerProofs.
   Theorem load_id_roundtrip : forall l, leaf_ok l = true -> load_id (id_of l) = LOk l.
   Proof.
     intros l H. destruct l as [t|t c|cls|cls k|cls]; simpl in H; unfold Pickle.load_id, Pickle.id_of.
-    - apply andb_true_iff in H. destruct H as [Hn Hf].
-      rewrite after_first_app by reflexivity. rewrite upto_app by reflexivity.
-      change (str_eqb s_table s_table) with true. cbv iota. unfold no_newline in Hn. rewrite (upto_all newline t Hn).
+    - rewrite after_first_app by reflexivity. rewrite upto_app by reflexivity.
+      change (str_eqb s_table s_table) with true. cbv iota.
       destruct (find_table t tables); [reflexivity | discriminate].
     - apply andb_true_iff in H. destruct H as [H Hf]. apply andb_true_iff in H. destruct H as [Ht Hc].
-      destruct (clean_split _ Ht) as [Ht1 Ht2]. destruct (clean_split _ Hc) as [Hc1 Hc2].
       rewrite after_first_app by reflexivity. rewrite upto_app by reflexivity.
       change (str_eqb s_column s_table) with false. change (str_eqb s_column s_column) with true. cbv iota.
-      rewrite (upto_all newline) by (apply no_newline_app; [auto | simpl; auto]).
       rewrite split_two by auto.
       destruct (find_table t tables); [|discriminate]. now rewrite Hf.
     - rewrite after_first_app by reflexivity. rewrite upto_app by reflexivity.
       change (str_eqb s_mapper s_table) with false. change (str_eqb s_mapper s_column) with false.
       change (str_eqb s_mapper s_mapper) with true. cbv iota.
-      destruct (clean_split _ (b64_clean cls)) as [_ Hn]. unfold no_newline in Hn. rewrite (upto_all newline _ Hn).
       now rewrite unb64_b64.
-    - apply andb_true_iff in H. destruct H as [Hk Hp]. destruct (clean_split _ Hk) as [Hk1 Hk2].
-      destruct (clean_split _ (b64_clean cls)) as [Hb1 Hb2].
+    - apply andb_true_iff in H. destruct H as [Hk Hp].
       rewrite after_first_app by reflexivity. rewrite upto_app by reflexivity.
       change (str_eqb s_mapperprop s_table) with false. change (str_eqb s_mapperprop s_column) with false.
       change (str_eqb s_mapperprop s_mapper) with false. change (str_eqb s_mapperprop s_mapperprop) with true. cbv iota.
-      rewrite (upto_all newline) by (apply no_newline_app; [auto | simpl; auto]).
       rewrite split_two by auto. rewrite unb64_b64. now rewrite Hp.
     - rewrite after_first_app by reflexivity. rewrite upto_app by reflexivity.
       change (str_eqb s_mapper_selectable s_table) with false. change (str_eqb s_mapper_selectable s_column) with false.
       change (str_eqb s_mapper_selectable s_mapper) with false.
       change (str_eqb s_mapper_selectable s_mapperprop) with false.
       change (str_eqb s_mapper_selectable s_mapper_selectable) with true. cbv iota.
-      destruct (clean_split _ (b64_clean cls)) as [_ Hn]. unfold no_newline in Hn. rewrite (upto_all newline _ Hn).
       now rewrite unb64_b64.
   Qed.
 
@@ -438,7 +416,10 @@ Theorem serializer_roundtrip_refuted_column_colon :
   load_id (fun _ => None) ex_tables (fun _ => []) (id_of (fun _ => []) (LColumn [116] [97; 58; 98])) = LErr EUnpack /\
   load_id (fun _ => None) ex_tables (fun _ => []) (id_of (fun _ => []) (LColumn [117; 58; 118] [121])) = LErr EUnpack.
 Proof. split; vm_compute; reflexivity. Qed.
-(* a newline in a table key truncates the id: KeyError (or a different table) *)
-Theorem serializer_roundtrip_refuted_newline :
-  load_id (fun _ => None) [([119; 10; 122], [[105; 100]])] (fun _ => []) (id_of (fun _ => []) (LTable [119; 10; 122])) = LErr EKey.
-Proof. vm_compute. reflexivity. Qed.
+(* since the id regex is compiled with DOTALL a newline in a key is harmless (formerly KeyError) *)
+Theorem serializer_roundtrip_newline_ok :
+  load_id (fun _ => None) [([119; 10; 122], [[105; 100]; [110; 10; 109]])] (fun _ => []) (id_of (fun _ => []) (LTable [119; 10; 122]))
+    = LOk (LTable [119; 10; 122]) /\
+  load_id (fun _ => None) [([119; 10; 122], [[105; 100]; [110; 10; 109]])] (fun _ => [])
+          (id_of (fun _ => []) (LColumn [119; 10; 122] [110; 10; 109])) = LOk (LColumn [119; 10; 122] [110; 10; 109]).
+Proof. split; vm_compute; reflexivity. Qed.
